@@ -13,6 +13,7 @@ from vtlengine.AST import (
 from vtlengine.AST.ASTConstructorModules import extract_token_info
 from vtlengine.AST.Grammar._cpp_parser import vtl_cpp_parser
 from vtlengine.AST.Grammar._cpp_parser._rule_constants import RC
+from vtlengine.Exceptions import VTLSyntaxError
 from vtlengine.DataTypes import (
     Boolean,
     Date,
@@ -376,9 +377,13 @@ class Terminals:
             type_node = self.visitBasicScalarType(scalartype)
 
         else:
-            raise SyntaxError(
-                f"Invalid parameter type definition {scalartype.children[0].text} at line "
-                f"{ctx.start_line}:{ctx.start_column}."
+            raise VTLSyntaxError(
+                line=ctx.start_line,
+                column=ctx.start_column + 1,
+                detail=(
+                    f"Invalid parameter type definition {scalartype.children[0].text} at line "
+                    f"{ctx.start_line}:{ctx.start_column}."
+                ),
             )
 
         if len(scalartype_constraint) != 0:
